@@ -58,7 +58,8 @@ def uses_head(m, name):
 
 def model_xsd(m, variant="inline"):
     groups_out: list[str] = []
-    body = particle_xsd(m, [], variant, groups_out)
+    mixed = ' mixed="true"' if variant == "mixed" else ""      # character data allowed: the element content is the same
+    body = particle_xsd(m, [], "inline" if variant == "mixed" else variant, groups_out)
     glob = ""
     if uses_head(m, "a"):
         import zlib
@@ -77,7 +78,7 @@ def model_xsd(m, variant="inline"):
         glob += '<xs:element name="f" type="xs:string"/>'
     return (f'<xs:schema xmlns:xs="{XS}" targetNamespace="{TNS}" xmlns:t="{TNS}" '
             f'elementFormDefault="qualified">{imp}'
-            f'<xs:element name="root"><xs:complexType>{body}</xs:complexType></xs:element>'
+            f'<xs:element name="root"><xs:complexType{mixed}>{body}</xs:complexType></xs:element>'
             f'{glob}{"".join(groups_out)}</xs:schema>')
 
 
